@@ -107,6 +107,9 @@ def fold(pid, mod, tier, seed, outs, wall) -> int:
             skipped[k] = skipped.get(k, 0) + v
         info += o.get('info', [])
 
+    post = getattr(mod, 'postcheck', None)
+    if post is not None:
+        violations += post(counters, maxima, sets)
     for name in getattr(mod, 'REQUIRED', []):
         if counters.get(name, 0) <= 0:
             inconclusive.append(f'deciding monitor "{name}" was evaluated 0 times')
